@@ -213,6 +213,21 @@ class Discharger:
             r = self.idiom(fn, w, e, t)
             if r[0]:
                 return r
+            # ---- by cases: on every path either the test itself was made, or the key equals one for which an invariant holds
+            #      (`nick == own || users.contains_key(nick)`)
+            if t[0] == 'get':
+                alts, hows = [], []
+                for a in atoms(e.pc):
+                    if a[0] == 'eq' and t[2] in a[1:3]:
+                        other = a[2] if a[1] == t[2] else a[1]
+                        if not isinstance(other, tuple) or other[:1] == ('lit',):
+                            continue
+                        r2 = self.invariant(fn, w, e, ('get', t[1], other))
+                        if r2[0]:
+                            alts.append(Atom(a))
+                            hows.append(r2[0])
+                if alts and entails(e.pc, Or(goal, *alts))[0]:
+                    return 'D1+' + '+'.join(sorted(set(hows))), 'guarded by the test itself or by the key being one an invariant covers'
         # ---- lifting to the callers
         if depth < 3:
             pnames = self.params_of(fn)
